@@ -672,9 +672,9 @@ func genC07(ctx *hx.Ctx, emit func(hx.Case)) {
 		}
 	}
 	// (4) random stream
-	count := 4000
+	count := 20000
 	if ctx.Thorough() {
-		count = 60000
+		count = 300000
 	}
 	r := ctx.Rng
 	ins := []string{"query", "header", "cookie", "path"}
